@@ -78,7 +78,7 @@ def _mk_tree(r, prof, bs):
     return treegen.gen_tree(r, bs=bs, nfiles=prof.get("nfiles", 6), ndirs=prof.get("ndirs", 2),
                             hostile=prof.get("hostile", False), specials=prof.get("specials", True),
                             xattrs=prof.get("xattrs", False), hardlinks=prof.get("hardlinks", False),
-                            big=prof.get("big", False), bigdir=prof.get("bigdir", 0), bigdir_dense=prof.get("bigdir_dense", False), duptails=prof.get("duptails", 0), tiny=prof.get("tiny", 0))
+                            big=prof.get("big", False), bigdir=prof.get("bigdir", 0), bigdir_dense=prof.get("bigdir_dense", False), duptails=prof.get("duptails", 0), tiny=prof.get("tiny", 0), samenames=prof.get("samenames", False))
 
 
 def build_case(bdir, seed, kind, profile, casedir):
